@@ -192,6 +192,13 @@ pub fn layout(p: &Prog, name: &str) -> Layout {
             }
             gaps[n].post = "\r\n".into();
         }
+        // lone CR as line terminator (a line end under the LSP position rules), mixed with LF and CRLF
+        "cr" => {
+            for (i, g) in gaps.iter_mut().enumerate() {
+                g.post = sep(i, if i % 3 == 2 { "\n" } else if i % 5 == 4 { "\r\n" } else { "\r" });
+            }
+            gaps[n].post = "\r".into();
+        }
         "tab" => {
             for (i, g) in gaps.iter_mut().enumerate() {
                 g.post = sep(i, "\t ");
